@@ -141,6 +141,25 @@ class ConstV(AV):
         return hash(("c", repr(self.v)))
 
 
+class AtomV(AV):
+    """Opaque ordered atom of the order domain (E2): only comparisons between atoms (decided by the current ranks)
+    and the sign of a difference of two atoms are meaningful; any other use escapes the fragment."""
+
+    __slots__ = ("name",)
+
+    def __init__(self, name: str) -> None:
+        self.name = name
+
+    def __repr__(self) -> str:
+        return f"<{self.name}>"
+
+    def __eq__(self, o: object) -> bool:
+        return isinstance(o, AtomV) and self.name == o.name
+
+    def __hash__(self) -> int:
+        return hash(("atom", self.name))
+
+
 class SymV(AV):
     """Symbolic definition of an integer variable (side information for quotient/remainder patterns)."""
 
@@ -428,6 +447,13 @@ class Interp:
         self.on_call: Callable[[ast.Call, Func, dict[str, AV], State, Func], None] | None = None
         self.on_store: Callable[[ast.Attribute, ast.stmt, AV, State, Func], None] | None = None
         self.on_return: Callable[[ast.Return, AV, State, Func], None] | None = None
+        self.hooks_all_depths = False
+        self.ranks: dict[str, int] = {}  # order-domain ranks of atoms
+        self.escaped: list[str] = []  # uses of atoms outside the order fragment
+        self.stubs: dict[str, Callable[[list[AV], dict[str, AV], AV | None], AV]] = {}  # qualname -> abstract summary
+        self.raise_log: list[tuple[str, str]] = []
+        self.on_binop: Callable[[ast.BinOp, AV, AV, State, Func], None] | None = None
+        self.on_builtin: Callable[[ast.Call, list[AV], State, Func], None] | None = None
 
     # ---------------------------------------------------------------- helpers
     def key_of(self, e: ast.AST, fn: Func) -> str | None:
@@ -465,6 +491,8 @@ class Interp:
                 return v
             if e.id in ("True", "False"):
                 return Iv(int(e.id == "True"), int(e.id == "True"))
+            if e.id == "NotImplemented":
+                return ConstV("NotImplemented")
             c = M.fold(e, fn.cls, fn.mod)
             if c is not UNKNOWN:
                 return self._const(c)
@@ -643,6 +671,14 @@ class Interp:
 
     def _binop(self, e: ast.BinOp, a: AV, b: AV, st: State, fn: Func, depth: int) -> AV:
         op = e.op
+        if self.on_binop is not None and (depth == 0 or self.hooks_all_depths):
+            self.on_binop(e, a, b, st, fn)
+        if isinstance(a, AtomV) or isinstance(b, AtomV):
+            if isinstance(a, AtomV) and isinstance(b, AtomV) and isinstance(op, ast.Sub) and a.name in self.ranks and b.name in self.ranks:
+                ra, rb = self.ranks[a.name], self.ranks[b.name]
+                return Iv(-INF, -1) if ra < rb else (Iv(0, 0) if ra == rb else Iv(1, INF))
+            self.escaped.append(f"arithmetic on ordered atom: {unparse(e)[:80]}")
+            return TOPINT
         if isinstance(a, ConstV) and isinstance(b, ConstV) and isinstance(a.v, (int, float)) and isinstance(b.v, (int, float)):
             a, b = num(a), num(b)
         if isinstance(a, Obj) or isinstance(b, Obj):
@@ -889,6 +925,8 @@ class Interp:
             return [(Iv(-(2**bits), 2**bits - 1, False), st)]
         if isinstance(fx, ast.Name) and fx.id not in st.d:
             n = fx.id
+            if self.on_builtin is not None and (depth == 0 or self.hooks_all_depths):
+                self.on_builtin(c, args, st, fn)
             if n == "int" and len(args) == 1:
                 x = args[0]
                 if isinstance(x, ConstV) and isinstance(x.v, float):
@@ -902,6 +940,17 @@ class Interp:
                 if x.hi <= 0:
                     return [(iv_neg(x), st)]
                 return [(Iv(0, max(-x.lo, x.hi), x.prec), st)]
+            if n in ("min", "max") and len(args) == 2 and all(isinstance(a, Obj) for a in args):
+                # CPython: max(x, y) = y if y > x else x ; min(x, y) = y if y < x else x
+                cop = ast.Gt() if n == "max" else ast.Lt()
+                outs_mm: list[tuple[AV, State]] = []
+                for s2 in self.cmp(c.args[1], cop, c.args[0], st, fn, True, depth):
+                    outs_mm.append((args[1], s2))
+                for s2 in self.cmp(c.args[1], cop, c.args[0], st, fn, False, depth):
+                    outs_mm.append((args[0], s2))
+                return outs_mm
+            if n == "hash" and len(args) == 1 and isinstance(args[0], AtomV):
+                return [(AtomV("hash(" + args[0].name + ")"), st)]
             if n in ("min", "max") and len(args) >= 2 and all(isinstance(a, Iv) for a in args):
                 ivs = [num(a) for a in args]
                 p = all(i.prec for i in ivs)
@@ -930,6 +979,11 @@ class Interp:
                 return [(TOP, st)]
         # repo callee
         tg, how = self.R.callees(c, fn, count=False)
+        if how == "resolved" and tg and any(t.qual in self.stubs for t in tg):
+            recv0: AV | None = None
+            if isinstance(fx, ast.Attribute):
+                recv0 = self.ev(fx.value, st, fn, depth)
+            return [(self.stubs[[t.qual for t in tg if t.qual in self.stubs][0]](args, kws, recv0), st)]
         if how == "resolved" and tg:
             # constructor call Class(...)  -> [__new__?, __init__]
             ft = self.R.type_of(fx, self.R.scope(fn))
@@ -1184,10 +1238,43 @@ class Interp:
             return self._truthy(c.target, v, st2, fn, truth)
         if isinstance(c, ast.Constant):
             return [st] if bool(c.value) == truth else []
-        if isinstance(c, ast.Call) and unparse(c.func) == "isinstance":
-            return [st]
+        if isinstance(c, ast.Call) and unparse(c.func) == "isinstance" and len(c.args) == 2:
+            v0 = self.ev(c.args[0], st, fn, depth)
+            res0 = self._isinstance(v0, c.args[1])
+            if res0 is None:
+                return [st]
+            return [st] if res0 == truth else []
         v = self.ev(c, st, fn, depth)
         return self._truthy(c, v, st, fn, truth)
+
+    def _isinstance(self, v: AV, texpr: ast.expr) -> bool | None:
+        names: list[str] = []
+
+        def collect(t: ast.expr) -> None:
+            if isinstance(t, ast.BinOp) and isinstance(t.op, ast.BitOr):
+                collect(t.left)
+                collect(t.right)
+            elif isinstance(t, ast.Tuple):
+                for x in t.elts:
+                    collect(x)
+            else:
+                names.append(unparse(t).split(".")[-1])
+
+        collect(texpr)
+        if isinstance(v, Obj):
+            if any(self.M.is_subclass(v.tname, n) for n in names):
+                return True
+            if all(n in ("int", "float", "str", "bool", "bytes") or self.M.cls(n, required=False) is not None for n in names):
+                return False
+            return None
+        if isinstance(v, NoneV):
+            return False
+        if isinstance(v, Iv) and v.prec and v.const and float(v.lo).is_integer():
+            if "int" in names:
+                return True
+            if not any(n in ("float", "bool", "object", "complex", "Number", "Real", "Integral", "SupportsInt", "Any") for n in names):
+                return False
+        return None
 
     def _truthy(self, e: ast.expr, v: AV, st: State, fn: Func, truth: bool) -> list[State]:
         if isinstance(v, NoneV):
@@ -1205,13 +1292,41 @@ class Interp:
 
     def cmp(self, l: ast.expr, op: ast.cmpop, r: ast.expr, st: State, fn: Func, truth: bool, depth: int) -> list[State]:
         t = type(op)
+        for side in (0, 1):
+            x = l if side == 0 else r
+            if isinstance(x, ast.NamedExpr) and isinstance(x.target, ast.Name):
+                v0 = self.ev(x.value, st, fn, depth)
+                st = st.set(x.target.id, v0, self.term(x.value, st, fn) if isinstance(v0, Iv) else None)
+                nm = ast.Name(id=x.target.id, ctx=ast.Load())
+                ast.copy_location(nm, x)
+                nm._parent = getattr(x, "_parent", None)  # type: ignore[attr-defined]
+                if side == 0:
+                    l = nm
+                else:
+                    r = nm
+        a, b = self.ev(l, st, fn, depth), self.ev(r, st, fn, depth)
         if t in (ast.In, ast.NotIn):
+            if isinstance(b, Obj):
+                return self._obj_compare(l, op, r, a, b, st, fn, truth, depth)
+            return [st]
+        if isinstance(a, Obj) and t in (ast.Lt, ast.LtE, ast.Gt, ast.GtE, ast.Eq, ast.NotEq) and not isinstance(b, NoneV):
+            return self._obj_compare(l, op, r, a, b, st, fn, truth, depth)
+        if isinstance(a, AtomV) or isinstance(b, AtomV):
+            if isinstance(a, AtomV) and isinstance(b, AtomV) and a.name in self.ranks and b.name in self.ranks and t in (ast.Lt, ast.LtE, ast.Gt, ast.GtE, ast.Eq, ast.NotEq):
+                ra, rb = self.ranks[a.name], self.ranks[b.name]
+                res = {ast.Lt: ra < rb, ast.LtE: ra <= rb, ast.Gt: ra > rb, ast.GtE: ra >= rb, ast.Eq: ra == rb, ast.NotEq: ra != rb}[t]
+                return [st] if res == truth else []
+            if isinstance(a, NoneV) or isinstance(b, NoneV):
+                if t in (ast.Is, ast.Eq):
+                    return [] if truth else [st]
+                if t in (ast.IsNot, ast.NotEq):
+                    return [st] if truth else []
+            self.escaped.append(f"ordered atom compared with a non-atom: {unparse(l)[:40]} {type(op).__name__} {unparse(r)[:40]}")
             return [st]
         if not truth:
             if t not in self.NEG:
                 return [st]
             t = self.NEG[t]
-        a, b = self.ev(l, st, fn, depth), self.ev(r, st, fn, depth)
         if t in (ast.Is, ast.IsNot):
             # None tests
             for x, y, ex in ((a, b, l), (b, a, r)):
@@ -1289,6 +1404,44 @@ class Interp:
             s = setv(s, r, nb)
         return [s]
 
+    def _obj_compare(self, l: ast.expr, op: ast.cmpop, r: ast.expr, a: AV, b: AV, st: State, fn: Func, truth: bool, depth: int) -> list[State]:
+        """Comparison with an object operand: inline the dunder method and decide by its returned truth value."""
+        from .resolve import DUNDER
+
+        dn = DUNDER.get(type(op))
+        recv, arg, arg_e = (b, a, l) if isinstance(op, (ast.In, ast.NotIn)) else (a, b, r)
+        if dn is None or not isinstance(recv, Obj):
+            return [st]
+        c = self.M.cls(recv.tname, required=False)
+        f = self.M.find_method(c, dn) if c is not None else None
+        if f is None:
+            if dn == "__ne__" and c is not None and self.M.find_method(c, "__eq__") is not None:
+                # default __ne__ inverts __eq__
+                return self._obj_compare(l, ast.Eq(), r, a, b, st, fn, not truth, depth)
+            if dn in ("__eq__", "__ne__") and isinstance(arg, Obj):
+                # identity semantics (object.__eq__): decided only when both are the same abstract singleton
+                same = recv == arg and bool(recv.fields.get("$id"))
+                differ = bool(recv.fields.get("$id")) and bool(arg.fields.get("$id")) and recv.fields.get("$id") != arg.fields.get("$id")
+                if same or differ:
+                    res = same if dn == "__eq__" else not same
+                    return [st] if res == truth else []
+            return [st]
+        outs = self.inline(f, [arg], {}, st, fn, depth, recv, l, [arg_e], {})
+        if outs is None:
+            return [st]
+        want = truth if not isinstance(op, ast.NotIn) else not truth
+        res: list[State] = []
+        for v, s2 in outs:
+            if isinstance(v, Iv) and v.const:
+                if (v.lo != 0) == want:
+                    res.append(s2)
+            elif isinstance(v, ConstV) and v.v == "NotImplemented":
+                self.escaped.append(f"{f.qual} returned NotImplemented for {arg}")
+                res.append(s2)
+            else:
+                res.append(s2)
+        return res
+
     # ---------------------------------------------------------------- statements / functions
     def run_function(self, f: Func, init: State, depth: int) -> tuple[list[tuple[AV, State]], list[State]]:
         """Returns ([(returned value, final state)], [fall-through states])."""
@@ -1330,6 +1483,9 @@ class Interp:
         w.max_states = max(self.budget * 8, 512)
         ex = w.run(f.body, init)
         rets = [(v, s) for (_, (v, s)) in ex.returns]
+        for rs, _st in ex.raises:
+            if isinstance(rs, ast.Raise):
+                self.raise_log.append((f.qual, unparse(rs.exc)[:80] if rs.exc is not None else "re-raise"))
         if depth == 0 and self.on_return is not None:
             for r, (v, s) in ex.returns:
                 self.on_return(r, v, s, f)
